@@ -36,6 +36,6 @@ theorem collapse (env : Env) (ws : List Str) : (sortCases (lowerCases env ws)).N
 /-- lower-casing keeps a test case whose lower-cased form has another number of code points -/
 theorem keeps_when_length_changes (env : Env) (w : Str) (h : (env.lowerOf w).length ≠ w.length) :
     lowerCases env [w] = [w] := by
-  simp [lowerCases, h]
+  simp [lowerCases, lowerOne, h]
 
 end Grexv.Props.C04
